@@ -12,20 +12,23 @@ PROPS = {
     "C01": {
         "level": "other",
         "explanation": "Mixed. PROVED (Verus, unbounded, modular): every function from js_path / js_path_process down to the leaf "
-                       "selectors meets a contract stated with the RFC 9535 spec functions (contracts/spec_*.rs), so for union-free, "
-                       "well-formed queries js_path_process returns exactly rfc_query(q, root) as a sequence of (value, path). "
-                       "ASSUMED in those proofs and BOUNDED-checked on the real functions: process_descendant, process_selectors, "
+                       "selectors meets a contract stated with the RFC 9535 spec functions (contracts/spec_*.rs); js_path_process (and the trait entry "
+                       "points of src/lib.rs) return, for EVERY well-formed query, exactly the RFC nodes with their multiplicities "
+                       "(ms(result) == ms(rfc_query): post.nodes; permutation lemmas in contracts/spec_multiset.rs) and, when no multi-selector segment "
+                       "receives several input nodes, exactly the RFC sequence (post.nodelist). process_descendant and process_selectors are proved units. "
+                       "ASSUMED in those proofs and BOUNDED-checked on the real functions: "
                        "Pointer::key/idx text, normalize_json_key + Queryable::get, the iterator-shape helper contracts. "
                        "BOUNDED (native): js_path_process vs the executable rfc_query on all (AST, document) pairs inside the stated bound, "
                        "location by pointer identity.",
-        "assumptions": COMMON_ASSUME + ["queries with multi-selector segments are outside the Verus claim (known finding C02) and covered by the bounded back end only"],
+        "assumptions": COMMON_ASSUME + ["the ORDER of a multi-selector segment that receives several input nodes is the known finding KF-C02-union-order; the multiset claim covers it"],
     },
     "C02": {
         "level": "other",
         "explanation": "Mixed. PROVED (Verus): Data::reduce keeps the left operand first and removes nothing; Data::flat_map / State::flat_map "
                        "concatenate per input node in input order; slice index sequence (ascending/descending); wildcard and filter child order; "
-                       "segment fold; `..` pre-order modulo the assumed process_descendant contract. All specs are sequences, so every C01 obligation "
-                       "is an ordering obligation. BOUNDED: process_descendant pre-order, process_selectors (members and order clauses), end-to-end order.",
+                       "segment fold; `..` pre-order (process_descendant proved; expanding to containers only is proved RFC-exact); process_selectors: its exact "
+                       "(by-selector) order is proved, and proved to BE the RFC order for at most one input node — the rest is the open known finding. "
+                       "All specs are sequences, so every C01 obligation is an ordering obligation. BOUNDED: end-to-end order and multiplicity.",
         "assumptions": COMMON_ASSUME,
     },
     "C03": {
